@@ -16,21 +16,21 @@ import (
 )
 
 // rawViol is what a worker records for a violating case.
-type rawViol struct {
+type seqRawViol struct {
 	Ord   int64  `json:"ord"`
 	Kind  string `json:"kind"`
 	Msg   string `json:"msg"`
 	Where string `json:"where"`
 }
 
-type vrec struct {
-	rawViol
-	u    *unit
+type seqVrec struct {
+	seqRawViol
+	u    *seqUnit
 	j    int64
 	idx  string   // concrete argument indices
 	seq  []string // mutators of the pre-state (handle mutator last)
 	msgc string   // message class
-	args []argv
+	args []seqArg
 }
 
 // baseOf maps a wrapper target to the target it forwards to.
@@ -63,7 +63,12 @@ func isSubsequence(a, b []string) bool {
 
 // msgClass strips what varies arbitrarily from a panic message: the concrete
 // string arguments of the call, then numbers and quoted strings.
-func msgClass(msg string, args []argv) string {
+func msgClass(msg string, args []seqArg) string {
+	// "what : operand" messages (basepathfs): the operand is a derived path
+	if i := strings.Index(msg, " : "); i >= 0 {
+		return concfs.StripDetail(msg[:i+3] + "PATH")
+	}
+
 	var ss []string
 
 	for _, a := range args {
@@ -80,9 +85,9 @@ func msgClass(msg string, args []argv) string {
 	for _, s := range ss {
 		switch {
 		case len(s) >= 2:
-			msg = strings.ReplaceAll(msg, s, "<arg>")
+			msg = strings.ReplaceAll(msg, s, "ARG")
 		case len(s) == 1 && (strings.HasSuffix(msg, " "+s)):
-			msg = msg[:len(msg)-1] + "<arg>"
+			msg = msg[:len(msg)-1] + "ARG"
 		}
 	}
 
@@ -91,10 +96,10 @@ func msgClass(msg string, args []argv) string {
 
 // reduceViols returns the records to report (with their final signatures) and
 // statistics about what was folded.
-func reduceViols(pl *plan, raws []rawViol) (out []seqViol, stats map[string]int, err error) {
+func reduceViols(pl *seqPlan, raws []seqRawViol) (out []seqViol, stats map[string]int, err error) {
 	stats = map[string]int{"violating_cases": len(raws)}
 
-	var recs []*vrec
+	var recs []*seqVrec
 
 	for _, r := range raws {
 		u := pl.unitAt(r.Ord)
@@ -102,13 +107,13 @@ func reduceViols(pl *plan, raws []rawViol) (out []seqViol, stats map[string]int,
 			return nil, nil, fmt.Errorf("violation at unknown case %d", r.Ord)
 		}
 
-		v := &vrec{rawViol: r, u: u, j: r.Ord - u.Base}
+		v := &seqVrec{seqRawViol: r, u: u, j: r.Ord - u.Base}
 		v.args = u.tuple(v.j)
 		v.idx = fmt.Sprint(u.tupleIdx(v.j))
 		v.msgc = msgClass(r.Msg, v.args)
 
 		for _, m := range u.St.Muts {
-			v.seq = append(v.seq, mutators[m].Name)
+			v.seq = append(v.seq, seqMutators[m].Name)
 		}
 
 		if u.HM != nil && u.HM.Name != "none" {
@@ -118,7 +123,7 @@ func reduceViols(pl *plan, raws []rawViol) (out []seqViol, stats map[string]int,
 		recs = append(recs, v)
 	}
 
-	hk := func(u *unit) string {
+	hk := func(u *seqUnit) string {
 		if u.HK == nil {
 			return ""
 		}
@@ -127,14 +132,14 @@ func reduceViols(pl *plan, raws []rawViol) (out []seqViol, stats map[string]int,
 	}
 
 	// 1. minimal pre-states
-	groups := map[string][]*vrec{}
+	groups := map[string][]*seqVrec{}
 
 	for _, v := range recs {
 		k := strings.Join([]string{v.u.T.OS, v.u.T.Name, v.u.Sec, v.u.Method, hk(v.u), v.idx, v.Kind, v.msgc, v.Where}, "\x00")
 		groups[k] = append(groups[k], v)
 	}
 
-	var step1 []*vrec
+	var step1 []*seqVrec
 
 	for _, v := range recs {
 		k := strings.Join([]string{v.u.T.OS, v.u.T.Name, v.u.Sec, v.u.Method, hk(v.u), v.idx, v.Kind, v.msgc, v.Where}, "\x00")
@@ -159,8 +164,8 @@ func reduceViols(pl *plan, raws []rawViol) (out []seqViol, stats map[string]int,
 
 	// 2. wrappers that only forward a violation of their base
 	baseKeys := map[string]bool{}
-	k2 := func(v *vrec, target string) string {
-		return strings.Join([]string{v.u.T.OS, target, v.u.Sec, v.u.Method, hk(v.u), v.idx, strings.Join(v.seq, "+"), v.Kind, v.msgc, v.Where}, "\x00")
+	k2 := func(v *seqVrec, seqTarget string) string {
+		return strings.Join([]string{v.u.T.OS, seqTarget, v.u.Sec, v.u.Method, hk(v.u), v.idx, strings.Join(v.seq, "+"), v.Kind, v.msgc, v.Where}, "\x00")
 	}
 
 	for _, v := range step1 {
@@ -169,7 +174,7 @@ func reduceViols(pl *plan, raws []rawViol) (out []seqViol, stats map[string]int,
 		}
 	}
 
-	var step2 []*vrec
+	var step2 []*seqVrec
 
 	for _, v := range step1 {
 		if b := baseOf(v.u.T.Name); b != v.u.T.Name && baseKeys[k2(v, b)] {
@@ -184,7 +189,7 @@ func reduceViols(pl *plan, raws []rawViol) (out []seqViol, stats map[string]int,
 	// 2b. helpers that only forward a violation of a method of the same file
 	// system (same pre-state, same innermost frame, same message)
 	methKeys := map[string]bool{}
-	k2b := func(v *vrec) string {
+	k2b := func(v *seqVrec) string {
 		return strings.Join([]string{v.u.T.OS, v.u.T.Name, strings.Join(v.seq, "+"), v.Kind, v.msgc, v.Where}, "\x00")
 	}
 
@@ -212,16 +217,16 @@ func reduceViols(pl *plan, raws []rawViol) (out []seqViol, stats map[string]int,
 	// the violation occurs for every class of that parameter (all other
 	// positions as in this tuple, starred ones ranging over all their classes)
 	type grp struct {
-		recs   []*vrec
+		recs   []*seqVrec
 		tuples map[string]bool
 	}
 
 	g3 := map[string]*grp{}
-	key3 := func(v *vrec) string {
+	key3 := func(v *seqVrec) string {
 		return strings.Join([]string{v.u.T.OS, v.u.Type, v.u.FS, v.u.Method, hk(v.u), v.u.stateClass(), v.Kind, v.msgc, v.Where}, "\x00")
 	}
 
-	classesOf := func(v *vrec) []string {
+	classesOf := func(v *seqVrec) []string {
 		var cs []string
 		for _, a := range v.args {
 			cs = append(cs, a.Class)
@@ -240,7 +245,7 @@ func reduceViols(pl *plan, raws []rawViol) (out []seqViol, stats map[string]int,
 		g3[k].tuples[strings.Join(classesOf(v), ",")] = true
 	}
 
-	domClasses := func(u *unit, p int) []string {
+	domClasses := func(u *seqUnit, p int) []string {
 		seen := map[string]bool{}
 
 		var out []string
@@ -257,9 +262,9 @@ func reduceViols(pl *plan, raws []rawViol) (out []seqViol, stats map[string]int,
 
 	// allIn reports whether every tuple obtained from t by letting the
 	// positions of star range over all their classes is in the group.
-	var allIn func(g *grp, u *unit, t []string, star []int) bool
+	var allIn func(g *grp, u *seqUnit, t []string, star []int) bool
 
-	allIn = func(g *grp, u *unit, t []string, star []int) bool {
+	allIn = func(g *grp, u *seqUnit, t []string, star []int) bool {
 		if len(star) == 0 {
 			return g.tuples[strings.Join(t, ",")]
 		}
@@ -279,7 +284,7 @@ func reduceViols(pl *plan, raws []rawViol) (out []seqViol, stats map[string]int,
 		return true
 	}
 
-	starred := func(v *vrec) []string {
+	starred := func(v *seqVrec) []string {
 		g := g3[key3(v)]
 		t := classesOf(v)
 
